@@ -16,6 +16,11 @@ pub enum Event<'a> {
     /// An erroring attempt found itself at the commit head (decides fallback / fatal).
     ErrorAtHead { txid: usize, invalid_tx: bool },
     Validate { txid: usize, incarnation: usize, ts: usize, ok: bool },
+    /// the validation timestamp has just been taken (the read-set scan follows)
+    ValidateStart { txid: usize, incarnation: usize },
+    /// call-site brackets around every `rewind_validation_to(index)` of the scheduler
+    RewindCall { index: usize },
+    RewindReturn { index: usize },
     /// emitted immediately after the cursor rewind took effect (no schedule point in between)
     Rewind { index: usize, ts: usize, previous: usize },
     Finality { txid: usize, unconfirmed_ts: usize, lower_ts: usize },
@@ -70,6 +75,9 @@ pub fn event(e: Event<'_>) {
         Event::Validate { txid, incarnation, ts, ok } => {
             0x04_0000 + (*txid as u64) * 4096 + (*incarnation as u64) * 2 + *ok as u64 + ((*ts as u64) << 24)
         }
+        Event::ValidateStart { txid, incarnation } => 0x10_0000 + (*txid as u64) * 64 + *incarnation as u64,
+        Event::RewindCall { index } => 0x11_0000 + *index as u64,
+        Event::RewindReturn { index } => 0x12_0000 + *index as u64,
         Event::Rewind { index, ts, previous } => 0x05_0000 + *index as u64 + ((*ts as u64) << 24) + ((*previous as u64) << 48),
         Event::Finality { txid, unconfirmed_ts, lower_ts } => {
             0x06_0000 + *txid as u64 + ((*unconfirmed_ts as u64) << 24) + ((*lower_ts as u64) << 44)
